@@ -36,7 +36,7 @@ type G struct {
 	Key     string // structural id: parent's key + "." + index of the go statement executed by the parent
 	kids    int
 	pre     uint64 // preemption points passed (see Preempt)
-	pstep   int // controller step during which the goroutine parked
+	pstep   int    // controller step during which the goroutine parked
 	goid    uint64
 	node    *Node
 	locks   int
@@ -93,16 +93,16 @@ type StallRule struct {
 
 // Sim is one simulated run.
 type Sim struct {
-	mu      sync.Mutex
-	gs      map[uint64]*G
-	parked  []*G
-	pending []*Pending
-	nextID  int
+	mu       sync.Mutex
+	gs       map[uint64]*G
+	parked   []*G
+	pending  []*Pending
+	nextID   int
 	libSites map[string]int
-	ctlKids int
-	seq     uint64
-	kick    chan struct{}
-	ctlGoid uint64
+	ctlKids  int
+	seq      uint64
+	kick     chan struct{}
+	ctlGoid  uint64
 
 	Src      DecisionSource
 	Trace    []Decision
